@@ -31,7 +31,7 @@ def main():
     # to the model (Props/C15Tie.lean)
     tie_ok = common.prove_tie(chk, 'I18n.Props.C15Tie', TIE_TRANSLATORS,
                               'the definitions regenerated from the current lib/domains.py, lib/gettext.py (parse_header) and lib/check/__init__.py '
-                              '(check_project, check_translator, check_comments) are no longer proved equal to Model/Domains.lean / Model/Hdr.lean '
+                              '(check_project, check_translator, check_comments, check_mime) are no longer proved equal to Model/Domains.lean / Model/Hdr.lean '
                               '(generated_*_eq_model and their corollaries)')
     problems = ' '.join(chk.lean.problems)
     driver_ok = os.path.exists(common.driver_path()) and not any('untranslatable' in s for s in chk.lean.translation.values()) \
@@ -113,6 +113,7 @@ def main():
             l2.append(C.project_line(fl)); o2.append(C.impl_project(fl))
             l3.append(C.translator_line(t, fl)); o3.append(C.impl_translator(t, fl))
         chk.stream('check-mime', lines, outs)
+        chk.stream('check-mime-generated', [l.replace('hdr mime ', 'hdr gmime ', 1) for l in lines], outs)
         chk.stream('check-project', l2, o2)
         chk.stream('check-translator', l3, o3)
         chk.stream('check-project-generated', [l.replace('hdr project ', 'hdr gproject ', 1) for l in l2], o2)
